@@ -137,21 +137,28 @@ class SimExecutor:
         j.fut.cancel()
 
 
+class SimDeadlock(BaseException):
+    """the thread would wait for ever (a non-reentrant lock taken again by its holder)"""
+
+
 class SimLock:
-    """stand-in for the worker's RLock.  Entering it from the main thread (outermost level) is an
+    """stand-in for the worker's lock (re-entrant or not, as the worker's own init_process creates it).  Entering it from the main thread (outermost level) is an
     injection point named after the function that takes it.  In the fine-grained mode pool jobs
     run as greenlets: the lock then really excludes -- a pool greenlet that finds it taken yields
     as `blocked`, and the main thread that finds it taken by a suspended pool greenlet runs that
     greenlet until it releases (owner.run_until_unlocked)."""
 
-    def __init__(self, owner):
+    def __init__(self, owner, reentrant=True):
         self.owner = owner
+        self.reentrant = reentrant
         self.depth = 0
         self.holder = None           # greenlet that holds the lock
 
     def acquire(self, *a, **k):
         me = greenlet.getcurrent()
         if self.holder is me and self.depth > 0:
+            if not self.reentrant:
+                raise SimDeadlock("lock taken again by the thread that holds it")
             self.depth += 1
             return True
         fn = sys._getframe(2 if k.get("_ctx") else 1).f_code.co_name
